@@ -26,8 +26,9 @@ CHECKS = {
         "(poolQueryA_valid / _none_valid / _valid_rows / _valid_nan / _prop_valid); validBatchB_iff ties the Boolean decider to the "
         "statement. Tie to the code: every exported pool strategy is run on generated pools in all candidate modes; Skeleton-A strategies "
         "are compared bit-exactly with the model through the captured simple_batch call; every implementation output is judged by the "
-        "property oracle and by the proved-equivalent Lean decider. Strategies with their own selection loops are covered by the oracle "
-        "and decider only (their loops are not yet modelled).",
+        "property oracle and by the proved-equivalent Lean decider. Strategies with their own selection loops are tied through the arrays actually "
+        "passed to rand_argmax / RandomState.choice: maskedSeq_valid (mask discipline), choiceSeq_valid (Badge, Falcun; numpy's choice modelled, "
+        "choiceIdx_spec) and shrinkSeq_valid (_greedy_sampling); only RegressionTreeBasedAL[representativity] is judged on outputs alone.",
         design="§4 C01",
         technique="Lean 4 proof (induction, refinement to simple_batch spec) + model/implementation correspondence with spies",
     ),
@@ -193,9 +194,9 @@ CHECKS = {
     ),
     "C06": dict(
         text="Lean 4 theorems over programs with two random sources (own, global): no_global_independent (no draw site or unseeded constructor uses the global source "
-        "=> the result is independent of the global generator), run_det, pool_repeat_equal (check_random_state(seed, multiplier) modelled). 121 generated obligations "
+        "=> the result is independent of the global generator), run_det, pool_repeat_equal, crs_private / crs_deterministic / repeat_all_equal (check_random_state(seed, multiplier) modelled from the caller's side and compared with the real function). 121 generated obligations "
         "over the RNG draw-site tables of 64 classes. Dynamic tie: twin objects, repeated calls and three different np.random.seed states must agree for every class "
-        "x configuration.",
+        "x configuration, also with RandomState instances as random_state (caller's instance unchanged, repeat equal).",
         design="Part I §I.2, Part II §4 C06",
         technique="Lean 4 proof over an RNG-source abstraction + AST translation validated dynamically",
         note="Trusted: Lean kernel (axioms audited); RNG-site tables over-approximate the Python semantics (validated dynamically); third-party estimators are deterministic "
